@@ -132,3 +132,34 @@ Proof.
   rewrite (Hfix lo R1 ltac:(lia)), (Hfix hi R2 ltac:(lia)).
   rewrite !Z.eqb_refl. reflexivity.
 Qed.
+
+(** * statement-level wrappers used by Properties/C14.v *)
+Lemma rejects_stmt s lo hi :
+  tick_to_sqrt_price (MinCurrentTick - 1) = Ok lo -> tick_to_sqrt_price MaxTick = Ok hi ->
+  0 < lo /\ (s < lo \/ hi < s -> exists e, calculate_sqrt_price_to_tick s = Err e).
+Proof.
+  intros E1 E2. apply sqrt_ok_inv in E1; [|vm_compute; split; discriminate].
+  apply sqrt_ok_inv in E2; [|vm_compute; split; discriminate]. subst.
+  split; [exact sqrt_of_min_pos|apply rejects_main].
+Qed.
+
+Lemma low_rejection_refuted : exists s T, calculate_sqrt_price_to_tick s = Ok T /\ ~ MinCurrentTick <= T.
+Proof.
+  exists 999999949999998749999937499996, (MinCurrentTick - 1).
+  split; [apply below_min_current_witness|vm_compute; intros H; apply H; reflexivity].
+Qed.
+
+Lemma round_down_total_stmt t sp : In sp AuthorizedTickSpacing ->
+  (MinInitializedTickV2 <= t <= MaxTick -> exists r, round_down_tick_to_spacing t sp = Ok r) /\
+  (t < MinInitializedTickV2 \/ MaxTick + sp <= t -> round_down_tick_to_spacing t sp = Err ETickBounds).
+Proof.
+  intros Hin. split; [apply round_down_in_range, Hin|apply round_down_rejects].
+  pose proof authorized_spacing_ok as Ha. rewrite Forall_forall in Ha. apply (Ha sp Hin).
+Qed.
+
+Lemma round_down_stmt t sp : 0 < sp ->
+  (forall r, round_down_tick_to_spacing t sp = Ok r ->
+     r <= t /\ t - r < sp /\ Z.rem r sp = 0 /\ r = sp * (t / sp) /\ MinInitializedTickV2 <= r <= MaxTick) /\
+  (forall e, round_down_tick_to_spacing t sp = Err e ->
+     e = ETickBounds /\ (sp * (t / sp) > MaxTick \/ sp * (t / sp) < MinInitializedTickV2)).
+Proof. intros H; split; intros x Hx; [apply round_down_ok|apply round_down_err]; assumption. Qed.
